@@ -81,6 +81,13 @@ func main() {
 	if err != nil {
 		harness("%v", err)
 	}
+	if c.PauseMs > 0 {
+		// a program that renders, does something else for a while, and renders again
+		time.Sleep(time.Duration(c.PauseMs) * time.Millisecond)
+		if items, err = fc.Run(c); err != nil {
+			harness("%v", err)
+		}
+	}
 
 	st := map[string]any{"exists": false, "size": int64(-1), "regular": false, "items": items,
 		"dropped_privileges": dropped, "euid": os.Geteuid(),
